@@ -520,6 +520,49 @@ func genPoolSrc(repo string) (string, error) {
 		}
 	}
 
+	// ---- ping-pong Close(nil) (return of a leased client) against removeFromPool (close event of that client): is the
+	// client's closed flag tested inside the critical section that appends it to the idle list (Model/PoolPut.v put_prog)
+	ppPutLocked := false
+	{
+		fs, ff, err := ParseGoFile(repo, "pkg/stream/xprotocol/connpool_pingpong.go")
+		if err != nil {
+			return "", err
+		}
+		put := FindFunc(ff, "poolPingPong", "putClientToPoolLocked")
+		cl := FindFunc(ff, "activeClientPingPong", "Close")
+		rm := FindFunc(ff, "activeClientPingPong", "removeFromPool")
+		if put == nil || cl == nil || rm == nil {
+			bad("ping-pong putClientToPoolLocked / Close / removeFromPool not found")
+		} else {
+			putTxt, clTxt, rmTxt := exprStr(fs, put.Body), exprStr(fs, cl.Body), exprStr(fs, rm.Body)
+			guarded := putTxt == "{if!client.closed{p.idleClients=append(p.idleClients,client)}}"
+			bare := putTxt == "{p.idleClients=append(p.idleClients,client)}"
+			iLock := strings.Index(clTxt, "ac.pool.clientMux.Lock()")
+			iPut := strings.Index(clTxt, "ac.pool.putClientToPoolLocked(ac)")
+			iClosed := strings.Index(clTxt, "ac.closed")
+			rmOK := strings.HasPrefix(rmTxt, "{p:=ac.pool;p.clientMux.Lock();deferp.clientMux.Unlock()") ||
+				strings.HasPrefix(rmTxt, "{p:=ac.pool\np.clientMux.Lock()")
+			if !rmOK {
+				rmOK = strings.Contains(rmTxt, "p.clientMux.Lock()") && strings.Contains(rmTxt, "deferp.clientMux.Unlock()") &&
+					strings.Index(rmTxt, "p.clientMux.Lock()") < strings.Index(rmTxt, "p.idleClients") && strings.Contains(rmTxt, "ac.closed=true")
+			}
+			switch {
+			case !rmOK:
+				bad("ping-pong removeFromPool: lock / remove / closed = true not recognised: %q", rmTxt)
+			case iLock < 0 || iPut < iLock || !strings.Contains(clTxt, "deferac.pool.clientMux.Unlock()"):
+				bad("ping-pong Close: lock / put order not recognised: %q", clTxt)
+			case guarded && iClosed < 0:
+				ppPutLocked = true
+			case bare && iClosed >= 0 && iClosed < iLock:
+				ppPutLocked = false
+			case guarded && iClosed >= 0:
+				ppPutLocked = true // an extra early test on top of the locked one does no harm
+			default:
+				bad("ping-pong Close / putClientToPoolLocked: closed test not recognised: %q / %q", clTxt, putTxt)
+			}
+		}
+	}
+
 	// ---- HTTP/1 client stream connection: data from the upstream while no request is outstanding closes the connection
 	httpIdleDataCloses := false
 	{
@@ -776,6 +819,7 @@ func genPoolSrc(repo string) (string, error) {
 	fmt.Fprintf(&b, "Definition poolacct_src_destroy_oneway : bool := %v.\n", destroyOneway)
 	fmt.Fprintf(&b, "Definition poolres_src_counts_unlimited : bool := %v.\n", resCountsUnlimited)
 	fmt.Fprintf(&b, "Definition poolinit_src_pp_count_locked : bool := %v.\n", ppCountLocked)
+	fmt.Fprintf(&b, "Definition poolput_src_pp_closed_tested_locked : bool := %v.\n", ppPutLocked)
 	fmt.Fprintf(&b, "Definition poolhttp_src_idle_data_closes : bool := %v.\n", httpIdleDataCloses)
 	fmt.Fprintf(&b, "Definition poolbind_src_dial_locked : bool := %v.\n", bindDialLocked)
 	fmt.Fprintf(&b, "Definition poolh2_src_switches : h2sw := mkH2Sw %v %v %v.\n", h2Identity, h2SkipGoaway, h2DecOnDrop)
